@@ -10,6 +10,7 @@ use midnight_circuits::{
         DecompositionInstructions, PublicInputInstructions,
     },
 };
+use midnight_circuits::{hash::sha256::Sha256Chip, types::{AssignedByte, Instantiable}};
 use midnight_curves::Fq as F;
 use midnight_proofs::{
     circuit::{Layouter, Value},
@@ -122,6 +123,33 @@ impl Relation for RangeRel {
     }
 }
 
+/// `examples/sha_preimage.rs`: knowledge of a 24-byte SHA-256 preimage (k = 13: many fixed
+/// columns, lookup tables loaded on demand).
+#[derive(Clone, Default)]
+pub struct ShaRel;
+
+impl Relation for ShaRel {
+    type Instance = [u8; 32];
+    type Witness = [u8; 24];
+    fn format_instance(instance: &Self::Instance) -> Result<Vec<F>, Error> {
+        Ok(instance.iter().flat_map(AssignedByte::<F>::as_public_input).collect())
+    }
+    fn circuit(&self, std_lib: &ZkStdLib, layouter: &mut impl Layouter<F>, _instance: Value<[u8; 32]>, witness: Value<[u8; 24]>) -> Result<(), Error> {
+        let assigned_input = std_lib.assign_many(layouter, &witness.transpose_array())?;
+        let output = std_lib.sha2_256(layouter, &assigned_input)?;
+        output.iter().try_for_each(|b| std_lib.constrain_as_public_input(layouter, b))
+    }
+    fn used_chips(&self) -> ZkStdLibArch {
+        ZkStdLibArch { sha2_256: true, ..ZkStdLibArch::default() }
+    }
+    fn write_relation<W: std::io::Write>(&self, _writer: &mut W) -> std::io::Result<()> {
+        Ok(())
+    }
+    fn read_relation<R: std::io::Read>(_reader: &mut R) -> std::io::Result<Self> {
+        Ok(ShaRel)
+    }
+}
+
 // ---- checks ------------------------------------------------------------------------------
 
 fn mvk_bytes(vk: &MidnightVK, fmt: SerdeFormat) -> Vec<u8> {
@@ -209,6 +237,101 @@ fn subject<R: Relation + Send + Sync>(
             &format!("vkparse fmt={fname} nf={nfixed} np={nperm} deg={} {}", inner_cs.degree(), hex(&inner)),
             &format!("ok k={k} fixed={} perm={} rest=0 rewrite=1 len={}", fixed.join(","), perm.join(","), inner.len()),
         );
+    }
+    // wrapper headers: model's readMVK / readMPK on the real images and on header variants
+    let arch = relation.used_chips();
+    let arch_s = format!(
+        "{}:{}",
+        [arch.jubjub, arch.poseidon, arch.sha2_256, arch.sha2_512, arch.keccak_256, arch.sha3_256, arch.blake2b, arch.secp256k1, arch.bls12_381, arch.base64, arch.automaton]
+            .iter()
+            .map(|b| if *b { '1' } else { '0' })
+            .collect::<String>(),
+        arch.nr_pow2range_cols
+    );
+    let npi = R::format_instance(&instance).map(|v| v.len()).unwrap_or(0);
+    let mut rel_b = vec![];
+    relation.write_relation(&mut rel_b).unwrap();
+    for (i, (fmt, fname)) in FORMATS.iter().enumerate() {
+        let shape = format!("fmt={fname} nf={nfixed} np={nperm} deg={}", inner_cs.degree());
+        let outer = base_vkb[i].clone();
+        ctx.case(
+            "mvkparse",
+            true,
+            &format!("mvkparse {shape} {}", hex(&outer)),
+            &format!("ok arch={arch_s} npi={npi} k={k} nf={nfixed} np={nperm} rest=0 rewrite=1"),
+        );
+        let mut variants: Vec<(&str, Vec<u8>)> = vec![];
+        let mut b = outer.clone();
+        b[0] = 2;
+        variants.push(("zkstd-version", b));
+        let mut b = outer.clone();
+        b[4] = 2;
+        variants.push(("flag-2", b));
+        let mut b = outer.clone();
+        b[15] = 5;
+        variants.push(("pow2-5", b));
+        let mut b = outer.clone();
+        b[15] = 4;
+        variants.push(("pow2-4", b));
+        variants.push(("header-cut", outer[..9].to_vec()));
+        variants.push(("header-only", outer[..21].to_vec()));
+        let mut b = outer.clone();
+        b[21] ^= 0x40;
+        variants.push(("inner-version", b));
+        for (vname, vb) in variants {
+            // a different pow2range count configures a different constraint system: skip variants
+            // the model cannot follow (its shape is the one of the written architecture)
+            let r = mzkh::catch(|| {
+                // which phase refuses: the architecture header (version / bincode / column range)
+                // or the rest
+                if let Err(e) = ZkStdLibArch::read(&mut &vb[..]) {
+                    let c = crate::ser::err_code(&e);
+                    return Err(if c == "version" || c == "pow2" { c } else { "invalid".to_string() });
+                }
+                MidnightVK::read(&mut &vb[..], *fmt).map_err(|e| crate::ser::err_code(&e))
+            });
+            let ans = match r {
+                Err(p) => {
+                    if *fname != "U" {
+                        ctx.oracle_fail(&format!("mvk-read-panic:{vname}"), "MidnightVK::read panicked on an edited header", json!({"case": desc, "variant": vname, "fmt": fname, "panic": p}));
+                    }
+                    "panic".to_string()
+                }
+                Ok(Err(code)) => format!("err {code}"),
+                Ok(Ok(_)) => "accepted".to_string(),
+            };
+            if vname == "pow2-4" {
+                // accepted or refused depending on the circuit the new architecture configures:
+                // only "no panic" is required
+                ctx.count(&format!("mvk:pow2-4:{}", ans.split(' ').next().unwrap_or("")));
+                continue;
+            }
+            ctx.case(&format!("mvkparse:{vname}"), true, &format!("mvkparse {shape} {}", hex(&vb)), &ans);
+        }
+        // proving key wrapper
+        let pkb = mpk_bytes(&pk, *fmt);
+        if pkb.len() < 600_000 || !ctx.quick() {
+            let inner_pk = pk.pk().to_bytes(*fmt);
+            let vklen = vk.vk().to_bytes(*fmt).len();
+            let lens = |b: &[u8]| -> Option<(String, usize)> {
+                let (v, used) = crate::ser::slice_polyvec(b)?;
+                Some((mzkh::join(&v.iter().map(|p| p.len()).collect::<Vec<_>>()), used))
+            };
+            let ans = (|| {
+                let (f, u1) = lens(&inner_pk[vklen..])?;
+                let (p, u2) = lens(&inner_pk[vklen + u1..])?;
+                let ok = pkb.len() == 2 + rel_b.len() + inner_pk.len() && pkb[2..2 + rel_b.len()] == rel_b[..] && pkb[2 + rel_b.len()..] == inner_pk[..];
+                Some(format!(
+                    "ok k={} rel={} vk.k={k} fixed={f} perm={p} rest={} rewrite={}",
+                    pk.k(),
+                    hex(&rel_b),
+                    inner_pk.len() - vklen - u1 - u2,
+                    ok as u8
+                ))
+            })()
+            .unwrap_or_else(|| "unsliceable".into());
+            ctx.case("mpkparse", true, &format!("mpkparse fmt={fname} rel={} nf={nfixed} np={nperm} deg={} {}", rel_b.len(), inner_cs.degree(), hex(&pkb)), &ans);
+        }
     }
     let desc_s = crate::keys::vk_desc(vk.vk());
     if desc_s.len() < 400_000 {
@@ -372,5 +495,12 @@ pub fn relation_cases(ctx: &mut Ctx) {
         subject(ctx, "square-arch", &Square { architecture: arch }, w * w, w, w * w + F::ONE, reps);
         let (x, y) = (F::from(1234u64), F::from(40000u64));
         subject(ctx, "range16", &RangeRel { bits: 16 }, x * y, (x, y), x * y + F::ONE, reps);
+    }
+    if ctx.thorough() {
+        let w: [u8; 24] = core::array::from_fn(|i| (i as u8).wrapping_mul(37).wrapping_add(ctx.seed as u8));
+        let inst: [u8; 32] = <Sha256Chip<F> as HashCPU<u8, [u8; 32]>>::hash(&w);
+        let mut wrong = inst;
+        wrong[0] ^= 1;
+        subject(ctx, "sha256-preimage", &ShaRel, inst, w, wrong, 1);
     }
 }
